@@ -764,3 +764,52 @@ NATIVE.add(ATTRIBUTE + ".__eq__", _gen_attr_pair(False), _call_pair(_attr_pair(F
 NATIVE.add(ATTRIBUTE + ".__hash__", _gen_attr_pair(False), _call_pair(_attr_pair(False), "__hash__"))
 NATIVE.add(CONSTANT + ".__eq__", _gen_attr_pair(True), _call_pair(_attr_pair(True), "__eq__"))
 NATIVE.add(CONSTANT + ".__hash__", _gen_attr_pair(True), _call_pair(_attr_pair(True), "__hash__"))
+
+
+# ------------------------------------------------------------------------------------------------ bounded: pickle round trip
+def extra_pickle_round_trip(eng, tier, seed):
+    """Bounded, native, not counted: pickling round-trips random nested type objects (and their attributes, constants with
+    expression values, bit length sets) to an EQUAL object with identical string form, attributes and layout.  No contract
+    reaches pickle's object-graph protocol; the structural half (model objects hold plain data: no closure / lambda /
+    generator is ever stored in a field of a model class) is checked by the immutability scan above."""
+    import pickle
+    import random
+    from specs import c02
+
+    rng = random.Random(seed)
+    violations, checked = [], 0
+    n = 60 if tier == "quick" else 600
+    for k in range(n):
+        desc = c02._gen_type(rng, 3, big=True)
+        try:
+            t = c02._build_type(desc)
+        except Exception:
+            continue
+        try:
+            for proto in (2, pickle.HIGHEST_PROTOCOL):
+                u = pickle.loads(pickle.dumps(t, protocol=proto))
+                ok = (u == t and t == u and hash(u) == hash(t) and str(u) == str(t) and type(u) is type(t)
+                      and u.bit_length_set == t.bit_length_set and u.alignment_requirement == t.alignment_requirement)
+                if ok and hasattr(t, "attributes"):
+                    ok = ([str(a) for a in u.attributes] == [str(a) for a in t.attributes] and u.attributes == t.attributes
+                          and u.extent == t.extent and u.full_name == t.full_name and u.version == t.version
+                          and [str(o) for _, o in u.iterate_fields_with_offsets()] == [str(o) for _, o in t.iterate_fields_with_offsets()])
+                if ok:
+                    # the copy stays a value of its own: mutating a list obtained from it does not affect the original
+                    if hasattr(u, "attributes"):
+                        u.attributes.append(None)
+                        ok = len(t.attributes) == len(u.attributes)
+                checked += 1
+                if not ok:
+                    violations.append({"name": "native/pickle-round-trip", "concrete": {"type": desc, "protocol": proto},
+                                       "detail": "unpickled object differs from the original: %s vs %s" % (u, t)})
+                    break
+        except Exception as ex:
+            violations.append({"name": "native/pickle-round-trip", "concrete": {"type": desc},
+                               "detail": "%s: %s" % (type(ex).__name__, str(ex)[:200])})
+        if violations:
+            break
+    return {"check": "pickle round trip of random nested types (bounded, native)", "round_trips": checked, "violations": violations}
+
+
+EXTRA_CHECKS = list(globals().get("EXTRA_CHECKS", [])) + [extra_pickle_round_trip]
